@@ -19,6 +19,8 @@ def read_known_toks():
 
 def oracle(op, ans, known):
     """Property oracle on the implementation's own answer (independent of the model)."""
+    if ans == "NOT-RUN":
+        return None
     if ans in ("HANG", "TOO-MANY-TOKENS", "DRIVER-TIMEOUT") or ans.startswith("PANIC") or ans.startswith("DRIVER-DIED"):
         return "lexer did not finish: " + ans[:200]
     parts = ans.split(";")
